@@ -7,19 +7,23 @@ EXTENDS API, Json
 
 CONSTANTS MaxDepth,      \* bound on the number of calls
           MaxHandles,    \* bound on the number of key objects
-          Emit           \* TRUE: print every behaviour of length MaxDepth as one JSON line
+          Emit,          \* TRUE: print every behaviour of length MaxDepth as one JSON line
+          Msgs           \* message identities, e.g. {"m1", "m2"}
 
 VARIABLES hist, nh
-mvars == << keys, issued, sigof, ser, out, hist, nh >>
-MView == << keys, issued, sigof, ser, nh, Len(hist) >>
+mvars == << keys, issued, sigof, ser, fmt, out, hist, nh >>
+MView == << keys, issued, sigof, ser, fmt, nh, Len(hist) >>
 
 MSets   == {44}
 Seeds   == {"s1", "s2"}
-Msgs    == {"m1", "m2"}
 \* context classes: identity and length (the lengths that matter: 0, the limit, just over it, 2^9)
 Ctxs    == { [id |-> "c0", len |-> 0], [id |-> "c255", len |-> 255], [id |-> "c256", len |-> 256], [id |-> "c512", len |-> 512] }
 MModes  == {"pure", "SHA512"}
 Draws   == {"r1", "r2"}
+\* the formatted message of an external triple is the triple itself (FormatMsg is injective: MC_Format); the internal
+\* interface may be handed any M', in particular one that IS the format of an external triple, or a raw one
+Fmt(mode, c, msg) == << mode, c.id, msg >>
+Mps == { Fmt(mode, c, msg) : mode \in MModes, c \in { x \in Ctxs : x.len <= 255 }, msg \in Msgs } \cup { << "raw", "x", "x" >> }
 
 MInit == AInit /\ hist = << >> /\ nh = 1
 Rec(r) == hist' = Append(hist, r)
@@ -33,15 +37,26 @@ MKeyGenRng == \E set \in MSets, draw \in Seeds, fault \in Faults :
    /\ Rec([op |-> "KeyGenRng", set |-> set, draw |-> draw, fault |-> fault, pk |-> nh, sk |-> nh + 1, ok |-> out'.ok])
 MSign == \E h \in Handles, msg \in Msgs, c \in Ctxs, mode \in MModes, draw \in Draws, fault \in Faults :
    /\ IsSk(h)
-   /\ Sign(h, msg, c.id, c.len, mode, draw, fault, SigKey(h, msg, c.id, mode, draw))
+   /\ Sign(h, msg, c.id, c.len, mode, Fmt(mode, c, msg), draw, fault, SigKey(h, Fmt(mode, c, msg), draw))
    /\ UNCHANGED nh
    /\ Rec([op |-> "Sign", sk |-> h, msg |-> msg, ctx |-> c.id, ctxlen |-> c.len, mode |-> mode, draw |-> draw, fault |-> fault, ok |-> out'.ok])
 \* verify an issued signature (referred to by the Sign call that produced it) under any key / message / context / mode
 MVerify == \E h \in Handles, msg \in Msgs, c \in Ctxs, mode \in MModes, t \in issued :
    /\ IsPk(h)
-   /\ Verify(h, msg, c.id, c.len, mode, t[1])
+   /\ Verify(h, msg, c.id, c.len, mode, Fmt(mode, c, msg), t[1])
    /\ UNCHANGED nh
    /\ Rec([op |-> "Verify", pk |-> h, msg |-> msg, ctx |-> c.id, ctxlen |-> c.len, mode |-> mode, sigof |-> t[1], res |-> out'.res])
+\* the internal interface on the same universe of formatted messages (plus a raw one)
+MSignInternal == \E h \in Handles, mp \in Mps, draw \in Draws :
+   /\ IsSk(h)
+   /\ SignInternal(h, mp, draw, SigKey(h, mp, draw))
+   /\ UNCHANGED nh
+   /\ Rec([op |-> "SignInternal", sk |-> h, mp |-> mp, draw |-> draw])
+MVerifyInternal == \E h \in Handles, mp \in Mps, t \in issued :
+   /\ IsPk(h)
+   /\ VerifyInternal(h, mp, t[1])
+   /\ UNCHANGED nh
+   /\ Rec([op |-> "VerifyInternal", pk |-> h, mp |-> mp, sigof |-> t[1], res |-> out'.res])
 MSer == \E h \in Handles :
    /\ Live(h) /\ Serialise(h, SerKey(h)) /\ UNCHANGED nh
    /\ Rec([op |-> "Ser", h |-> h])
@@ -52,7 +67,7 @@ MDerive == \E h \in Handles : /\ IsSk(h) /\ Room(1) /\ Derive(h, nh) /\ nh' = nh
 MClone  == \E h \in Handles : /\ Live(h) /\ Room(1) /\ Clone(h, nh) /\ nh' = nh + 1 /\ Rec([op |-> "Clone", h |-> h, h2 |-> nh])
 MDrop   == \E h \in Handles : /\ Live(h) /\ Drop(h) /\ UNCHANGED nh /\ Rec([op |-> "Drop", h |-> h])
 
-MNext == MKeyGenSeed \/ MKeyGenRng \/ MSign \/ MVerify \/ MSer \/ MDeser \/ MDerive \/ MClone \/ MDrop
+MNext == MKeyGenSeed \/ MKeyGenRng \/ MSign \/ MVerify \/ MSignInternal \/ MVerifyInternal \/ MSer \/ MDeser \/ MDerive \/ MClone \/ MDrop
 MSpec == MInit /\ [][MNext]_mvars
 Bound == Len(hist) <= MaxDepth
 
@@ -61,14 +76,20 @@ Bound == Len(hist) <= MaxDepth
 ErrorCreatesNothing == [][ (out'.op \in {"Sign", "KeyGenRng"} /\ ~out'.ok) => (keys' = keys /\ issued' = issued) ]_mvars
 \* C02/C05/C06 (ideal form): TRUE is returned only for exactly an issued tuple with a context within the limit
 VerifyMeansIssued == [][ (out'.op = "Verify" /\ out'.res) => (\E t \in issued : t[2] \in Sets) ]_mvars
-\* C07: no operation succeeds with a context longer than 255 bytes
-NoLongContext == \A t \in issued : \E c \in Ctxs : c.id = t[5] /\ c.len <= 255
+\* C07: no external operation succeeds with a context longer than 255 bytes, and none has a formatted message
+NoLongContext == /\ \A k \in DOMAIN fmt : \E c \in Ctxs : c.id = k[2] /\ c.len <= 255
+                 /\ (out.op = "Sign" /\ out.ok) => out.ctxlen <= 255
+\* Sign = Sign_internal o FormatMsg and Verify = Verify_internal o FormatMsg at the level of the ideal functionality: a
+\* signature issued through one interface is accepted through the other on the corresponding (mode, ctx, M) / M'
+CrossInterface ==
+  \A t \in issued : \A h \in Handles : \A mode \in MModes, c \in Ctxs, msg \in Msgs :
+     (IsPk(h) /\ c.len <= 255) => (Verdict(h, c.len, Fmt(mode, c, msg), t[1]) = VerdictMp(h, Fmt(mode, c, msg), t[1]))
 \* C12: randomness is requested at most once per call, through the fallible method only
 RngDiscipline == ("rnglog" \in DOMAIN out) => out.rnglog \in {OneDraw, NoDraw}
 \* C09/C11: all live public keys of one lineage and set are interchangeable (same verdict on every issued tuple)
 PkInterchangeable ==
   \A h1, h2 \in Handles : (IsPk(h1) /\ IsPk(h2) /\ keys[h1].set = keys[h2].set /\ keys[h1].lin = keys[h2].lin) =>
-     \A t \in issued : Verdict(h1, t[4], t[5], 0, t[6], t[1]) = Verdict(h2, t[4], t[5], 0, t[6], t[1])
+     \A t \in issued : Verdict(h1, 0, t[4], t[1]) = Verdict(h2, 0, t[4], t[1])
 \* emission of behaviours for replay
 EmitBehaviour == (Emit /\ Len(hist) = MaxDepth) => PrintT(<< "REPLAY", ToJson(hist) >>)
 =======================================================================
